@@ -2,13 +2,14 @@
 //
 //	sesscheck replay -in behaviours.ndjson -out result.json
 //	    every input line is a JSON behaviour exported by TLC (SessionsMC): calls Create / KeepAlive / Tick /
-//	    CloseBegin / Cleanup / Write / LeaderChange with the outcome and the observable state the
+//	    CloseBegin / Cleanup / Write / LeaderChange(lag) / Fill(m) with the outcome and the observable state the
 //	    specification demands.  Each is executed on a fresh real RF=1 leader controller whose session
 //	    timers run on the harness's tick clock and whose cleanups park between listing and delete write
 //	    (hooks under the build tag verif); every step is compared.
 //	sesscheck drive -seed S -n N -ops K -out trace.ndjson
 //	    random interleavings over a bigger key space (keys that need escaping, three sessions, several
-//	    timeouts) on the real code, recorded for validation by SessTrace.tla.
+//	    timeouts, elections of a node whose DB lags its log, shards populated around the range-delete
+//	    threshold) on the real code, recorded for validation by SessTrace.tla.
 //	sesscheck rerun -in scenario.json -out trace.ndjson
 //	    executes the calls (arguments only) of a saved scenario and records what the real code does.
 package main
@@ -43,7 +44,7 @@ type outcome struct {
 }
 
 func argsOf(w *m.SStep) m.SStep {
-	g := m.SStep{S: w.S, To: w.To}
+	g := m.SStep{S: w.S, To: w.To, Lag: w.Lag, Fill: w.Fill}
 	g.A, g.Req = w.A, w.Req
 	return g
 }
@@ -221,6 +222,8 @@ type drv struct {
 	exp   map[int]bool // ... of which by expiry
 	armed map[int]bool
 	racy  bool // this trace may write into the window of a pending cleanup in the known-finding pattern
+	big   bool // the shard is populated first (fill records): range deletes around the code's threshold
+	fill  int
 }
 
 func plainReq() m.Req { return m.Req{Puts: []m.Put{}, Dels: []m.Del{}, Rngs: []m.Rng{}} }
@@ -250,7 +253,15 @@ func (d *drv) write(last *m.SStep) m.Req {
 			r.Dels = append(r.Dels, m.Del{Key: m.K(d.keys[d.rng.Intn(len(d.keys))]), Exp: m.NoExp})
 		default:
 			b := []string{"", "a", "a/", "b", "c", "z", "~~"}
+			if d.big {
+				// bounds inside and around the block of filler records "a-NNN"
+				b = append(b, "a-", "a.", fmt.Sprintf("a-%03d", 1+d.rng.Intn(8)), fmt.Sprintf("a-%03d", d.fill-d.rng.Intn(3)))
+			}
 			s, e := b[d.rng.Intn(len(b))], b[d.rng.Intn(len(b))]
+			if d.big && d.rng.Intn(2) == 0 {
+				// a range that holds the whole block and what follows it
+				s, e = []string{"", "a", "a-"}[d.rng.Intn(3)], []string{"c", "z", "~~"}[d.rng.Intn(3)]
+			}
 			if m.SlashCmp(s, e) > 0 {
 				s, e = e, s
 			}
@@ -289,6 +300,8 @@ func cmdDrive(args []string) int {
 	ops := fs.Int("ops", 30, "calls per trace")
 	out := fs.String("out", "trace.ndjson", "")
 	racy := fs.Int("racy", 10, "one trace in this many may write into a cleanup window in the known-finding pattern (0: none)")
+	big := fs.Int("big", 6, "one trace in this many starts by populating the shard with 96..104 records (0: none)")
+	maxLag := fs.Int("maxlag", 3, "a leader change elects a node whose DB lags its log by 0..maxlag entries")
 	_ = fs.Parse(args)
 	m.Quiet()
 	f, err := os.Create(*out)
@@ -324,6 +337,9 @@ func cmdDrive(args []string) int {
 		reset.A, reset.Off, reset.Lv = "Reset", -1, -1
 		emit(&reset)
 		var last *m.SStep
+		if *big > 0 && rng.Intn(*big) == 0 {
+			d.big, d.fill = true, 96+rng.Intn(9)
+		}
 		for k := 0; k < *ops; k++ {
 			st := m.SStep{S: -1}
 			var pend, armed []int
@@ -344,6 +360,8 @@ func cmdDrive(args []string) int {
 				return d.ids[rng.Intn(len(d.ids))]
 			}
 			switch x := rng.Intn(20); {
+			case d.big && k == 0:
+				st.A, st.Fill = "Fill", d.fill
 			case x < 3 && len(d.ids) < 4:
 				st.A, st.To = "Create", 1+rng.Intn(3)
 			case x < 5:
@@ -357,8 +375,11 @@ func cmdDrive(args []string) int {
 				}
 			case x < 13 && len(pend) > 0:
 				st.A, st.S = "Cleanup", pend[rng.Intn(len(pend))]
-			case x == 13 && len(pend) == 0 && k > 0:
-				st.A = "LeaderChange"
+			case (x == 13 || x == 14) && len(pend) == 0 && k > 0:
+				st.A, st.Lag = "LeaderChange", rng.Intn(*maxLag+1)
+				if st.Lag > e.NextOffset() {
+					st.Lag = e.NextOffset()
+				}
 			default:
 				st.A, st.Req = "Write", d.write(last)
 			}
